@@ -86,6 +86,13 @@ def body(case):
             except Exception as e:
                 if "outside of interval" not in str(e):
                     raise
+        if case.get("observer") and steps == 1:
+            # the caller re-uses the problem object for something else: its bound attributes are replaced by those of
+            # a smaller box.  The running search keeps the box it was started on
+            import numpy as np
+            lo, hi = case["recipe"]["lower"], case["recipe"]["upper"]
+            run.problem.lowerBoundOfFloatVariables = np.array([a + 0.25 * (b - a) for a, b in zip(lo, hi)])
+            run.problem.upperBoundOfFloatVariables = np.array([b - 0.25 * (b - a) for a, b in zip(lo, hi)])
         if case.get("observer"):
             ev = run.solver.evolvent
             stored = [it for it in run.solver.searchData][1:-1]
